@@ -10,6 +10,7 @@ mod shimmark;
 mod mani_run;
 mod setsum_replay;
 mod damage;
+mod tkey;
 
 /// No single allocation above the limit: a reader that sizes a buffer from damaged bytes must not take the
 /// machine down; the request fails, Rust aborts, and the abort is reported with the case in flight (C09).
@@ -52,6 +53,7 @@ fn main() {
         "mani-run" => mani_run::run(&args[2..]),
         "mani-recover" => mani_run::recover(&args[2..]),
         "mani-cuts" => mani_run::cuts(&args[2..]),
+        "tkey-replay" => tkey::main(&args[2..]),
         "damage-run" => damage::main(&args[2..]),
         "setsum-replay" => setsum_replay::main(&args[2..]),
         x => common::tool_error(&format!("unknown subcommand {x}")),
